@@ -314,6 +314,18 @@ func (g *mgen) fillDate(m protoreflect.Message) {
 		}
 		mo = int32(1 + g.r.IntN(12))
 		d = int32(1 + g.r.IntN(daysIn(int(y), int(mo))))
+		// calendar boundaries (C03-m9: a leap rule without the century exception): the last day of
+		// February on years = 0 mod 4 / 100 / 400, and the last day of every month
+		switch g.r.IntN(6) {
+		case 0:
+			y = []int32{4, 96, 400, 1200, 1600, 1996, 2000, 2004, 2024, 2400, 4000, 8000, 9996}[g.r.IntN(13)] // leap
+			mo, d = 2, 29
+		case 1:
+			y = []int32{100, 200, 300, 500, 1700, 1800, 1900, 2100, 2200, 2300, 2500, 9900, 2023, 2101, 1}[g.r.IntN(15)] // not leap
+			mo, d = 2, 28
+		case 2:
+			d = int32(daysIn(int(y), int(mo)))
+		}
 	}
 	for i, v := range []int32{y, mo, d} {
 		if v != 0 {
